@@ -67,6 +67,8 @@ class Module:
         if not os.environ.get("VERIF_NO_DEEXTRACT"):
             from sa.dename import _ref
             if (_ref().get(rel) or {}).get("#digest") != digest:
+                from sa.dename import refunc
+                self.refunced = refunc(self.tree, rel)
                 from sa.deextract import deextract
                 self.deextracted, self.absorbed = deextract(self.tree, rel)
         self.denamed = 0
